@@ -122,8 +122,8 @@ class MetaStream:
             data = raw
         else:
             data = decompress(img.comp, raw, META_MAX)
-            if len(data) <= size and len(data) > 0:
-                # a compressed block must be smaller than its uncompressed form
+            if len(data) < size and len(data) > 0:
+                # a stored block must not be larger than its uncompressed form
                 img.invalid.append("meta: compressed block at %d stores %d bytes for %d bytes of payload" % (pos, size, len(data)))
         if len(data) > META_MAX:
             img.invalid.append("meta: block at %d unpacks to %d > 8192" % (pos, len(data)))
@@ -168,6 +168,13 @@ class Cursor:
     def unpack(self, fmt):
         b = self.get(struct.calcsize(fmt))
         return struct.unpack(fmt, b)
+
+    def normalise(self):
+        """if the cursor sits exactly at the end of a block, move it to the start of the next one"""
+        data, stored, unc, pos = self.ms.block(self.off)
+        if self.inner == len(data):
+            self.off += stored
+            self.inner = 0
 
     def fpos0(self):
         return self.last_fpos[0] if self.last_fpos else None
@@ -342,7 +349,7 @@ def _decode(img, want_content, max_nodes):
             out = raw
         else:
             out = decompress(img.comp, raw, bs)
-            if stored >= len(out):
+            if stored > len(out):
                 img.invalid.append("frag[%d]: compressed fragment block stores %d bytes for %d bytes of payload" % (idx, stored, len(out)))
         img.data_extents.append((start, start + stored, "fragblk%d" % idx))
         frag_cache[idx] = out
@@ -527,7 +534,7 @@ def _decode(img, want_content, max_nodes):
                     blk = raw
                 else:
                     blk = decompress(img.comp, raw, bs)
-                    if stored >= len(blk):
+                    if stored > len(blk):
                         img.invalid.append("%s: compressed block %d stores %d bytes for %d bytes of payload" % (tag, k, stored, len(blk)))
                 if len(blk) != want:
                     raise DecodeError("%s: block %d has %d bytes, expected %d" % (tag, k, len(blk), want))
@@ -562,6 +569,7 @@ def _decode(img, want_content, max_nodes):
         while remaining > 0:
             if remaining < 12:
                 raise DecodeError("inode[%d]: directory listing truncated header" % n.ino)
+            cur.normalise()
             hdr_positions.append((consumed, cur.off, cur.inner))
             cnt, start, base = cur.unpack("<III")
             fp = cur.last_fpos
@@ -581,8 +589,7 @@ def _decode(img, want_content, max_nodes):
                 et = "dir[%d].ent%d" % (n.ino, len(ents))
                 _field(img, et + ".offset", fp, 0, 2); _field(img, et + ".delta", fp, 2, 2)
                 _field(img, et + ".type", fp, 4, 2); _field(img, et + ".name_size", fp, 6, 2)
-                if nsz > 255:
-                    raise DecodeError("inode[%d]: entry name size %d" % (n.ino, nsz + 1))
+                # the kernel limits names to 256 bytes; the format field is 16 bit (doc/format.adoc). Not an error here.
                 name = cur.get(nsz + 1)
                 _field(img, et + ".name", cur.last_fpos, 0, nsz + 1)
                 remaining -= 8 + nsz + 1
